@@ -13,7 +13,7 @@ CONFIG = dict(
                  "credit_sound with a saturating add needs window != u64::MAX (a checked add needs nothing)",
                  "loop_bound: the history follows the documented loop (record_sent(sent+len) only after a granted wait_for_credit(len); advance_to_file only between chunks); inbound handlers are unconstrained"],
     manifest=dict(
-        text="Lean 4 theorems over an executable model of TransferControl (one atomic step per public method, histories of any length over all 64-bit values, both overflow profiles): acked <= sent is invariant; an ack for another file or at/below the acked offset changes nothing; with the credit predicate's forms re-extracted from wait_for_credit (zero clause, sum form, <=), credit is granted only if nothing is in flight or in-flight + len <= window with + in N, never panics, and (expired deadline) is granted exactly then; a producer following the documented loop under arbitrary hostile acks/resumes/cancels has at most max(window, last chunk) in flight at every point; cancel is permanent, first reason wins, every later credit/reconnect wait reports it and a resume is refused. Tied to /repo by fact extraction plus a differential run: both sides enumerate every op sequence of length <= 4 over a 26-op alphabet and <= 7 over a 10-op alphabet (digest per sequence) and replay random 200-op histories over the 64-bit boundary lattice with hostile acks and oversized chunks; direct oracles evaluate each clause on the real object after every op. Concurrent callers: every method body takes the mutex exactly once (lock-acquisition counts re-extracted, theorem single_section_ops), so interleavings are sequential histories; 2-3 threads racing short programs on the real object must produce an outcome of some sequential order (decided on the real object's own sequential runs and by the model).",
+        text="Lean 4 theorems over an executable model of TransferControl (one atomic step per public method, histories of any length over all 64-bit values, both overflow profiles): acked <= sent is invariant; an ack for another file or at/below the acked offset changes nothing; with the credit predicate's forms re-extracted from wait_for_credit (zero clause, sum form, <=), credit is granted only if nothing is in flight or in-flight + len <= window with + in N, never panics, and (expired deadline) is granted exactly then; a producer following the documented loop under arbitrary hostile acks/resumes/cancels has at most max(window, last chunk) in flight at every point; cancel is permanent, first reason wins, every later credit/reconnect wait reports it and a resume is refused. Tied to /repo by fact extraction plus a differential run: both sides enumerate every op sequence of length <= 4 over a 26-op alphabet and <= 7 over a 10-op alphabet (digest per sequence) and replay random 200-op histories over the 64-bit boundary lattice with hostile acks and oversized chunks; direct oracles evaluate each clause on the real object after every op. The idle watchdog (extracted: it calls only is_cancelled/timestamps/cancel) only ever cancels and never overrides an earlier reason; which call refreshes which watchdog time stamp is part of every observation; a real spawn_watchdog thread is exercised. The model refines C12's condvar model (same effect of every signalling method, same wait pass), so C12's wake-up theorems are about the same object. Concurrent callers: every method body takes the mutex exactly once (lock-acquisition counts re-extracted, theorem single_section_ops), so interleavings are sequential histories; 2-3 threads racing short programs on the real object must produce an outcome of some sequential order (decided on the real object's own sequential runs and by the model).",
         note="Lean kernel; axioms propext/Classical.choice/Quot.sound only; extractor + harness + driver trusted; Mutex/Condvar not verified; only the non-blocking pass of the two waits is modelled (C12 covers parking); timestamps not modelled.",
         technique="Lean 4 proof (invariants over histories) + regenerated predicate forms + exhaustive small-scope and random differential correspondence"),
 )
